@@ -16,7 +16,7 @@ CLASSES = {
     'DQ': ['"'], 'SQ': ["'"], 'HASH': ['#'], 'DOT': ['.'], 'COLON': [':'], 'LBR': ['['], 'RBR': [']'], 'LP': ['('], 'RP': [')'],
     'COMMA': [','], 'COMB': ['>', '+', '~'], 'PIPE': ['|'], 'STAR': ['*'], 'EQ': ['='], 'OPX': ['^', '$', '!'], 'SLASH': ['/'],
     'BSL': ['\\'], 'DASH': ['-'], 'US': ['_'], 'DIGIT': ['7', '0'], 'HEXL': ['a', 'F'], 'N': ['n', 'N'], 'LETTER': ['p', 'Z'],
-    'AMP': ['&'], 'AT': ['@'], 'DEL': ['\x7f'], 'C1': ['\x80', '\x9f'], 'BMP': ['\xa0', '中'], 'SURR': ['\ud800'],
+    'AMP': ['&'], 'AT': ['@'], 'PCT': ['%', '%s', '%d'], 'ESCPCT': ['\\%', '\\25 ', '\\{', '\\7b '], 'DEL': ['\x7f'], 'C1': ['\x80', '\x9f'], 'BMP': ['\xa0', '中'], 'SURR': ['\ud800'],
     'ASTRAL': ['\U0001f600', '\U0010ffff'],
     'ESCBIG': ['\\110000', '\\ffffff'], 'ESCZERO': ['\\0', '\\000000 '], 'ESCSURR': ['\\d800', '\\dfff '], 'ESCMAX': ['\\10ffff '],
     'FOLD': ['\u017f', '\u0130', '\u0131', '\u212a'],      # characters that Unicode case folding maps onto ASCII letters (re.I)
@@ -89,7 +89,9 @@ def _custom_part(chk, tier):
     chk.add_tlc(res, 'custom-resolver')
     if res.violation:
         chk.violation('spec|custom', 'Custom.tla: %s' % res.violation, {'cfg': 'custom', 'group': 'spec', 'tlc': res.counterexample[:3000]})
-    for e in got:
+    # every map in two spellings: references written ":--x", and with the dashes / the name written as CSS escapes and in upper case
+    # (the same alias: names are matched after unescaping, case-insensitively)
+    for e, refstyle in [(e, st) for e in got for st in (':--%s', ':\\2d-%s', ':-\\-%s', ':--\\%s')]:
         m = {}
         for nme in names:
             d = e['def'][nme]
@@ -98,7 +100,8 @@ def _custom_part(chk, tier):
             elif d['k'] == 'bad':
                 m[':--' + nme] = 'p[ >'
             elif d['k'] == 'ref':
-                m[':--' + nme] = 'div :--%s > b' % d['m']
+                ref = refstyle % (d['m'].upper() if refstyle != ':--%s' and d['m'].lower() not in 'abcdef' else d['m'])
+                m[':--' + nme] = 'div %s > b' % ref
         out = _outcome(sv, ':--%s' % e['start'], custom=m)
         sv.purge()
         chk.count(1, traces=1)
